@@ -75,9 +75,24 @@ fn scenario(seed: u64, rep: &Report) -> Result<(), String> {
         // tracking alone has to carry the property
         cfg.pools[0].set("cleanup_server_connections", "false");
     }
+    // a third of the scenarios end with a reload that changes nothing about this pool (the pooler
+    // re-validates pools then); pool validation needs validate_config on
+    let reload_at_end = rng.chance(1, 3);
+    if reload_at_end {
+        cfg.gset("validate_config", "true");
+    }
     cell.start_pgcat(&cfg, &StartOpts::default())
         .map_err(|e| format!("start: {:?}", e))?;
     let addr = cell.addr();
+    // what a client that supplies NO tracked parameter is told: the pool's defaults
+    let tracked_names = ["client_encoding", "DateStyle", "TimeZone", "standard_conforming_strings", "application_name"];
+    let defaults_told = |addr: &str, id: &str| -> Result<BTreeMap<String, String>, String> {
+        let c = Conn::connect(addr, &StartupOpts::new(USER, "db", PASS)).map_err(|e| format!("{} connect: {}", id, e))?;
+        let m: BTreeMap<String, String> = tracked_names.iter().filter_map(|k| c.params.get(*k).map(|v| (k.to_string(), v.clone()))).collect();
+        c.terminate();
+        Ok(m)
+    };
+    let defaults_before = defaults_told(&addr, "d0")?;
     let n = rng.range(2, 8) as usize;
     let mut hs = vec![];
     for ci in 0..n {
@@ -207,6 +222,31 @@ fn scenario(seed: u64, rep: &Report) -> Result<(), String> {
         let (c, t) = h.join().map_err(|_| "client panicked".to_string())??;
         checks.extend(c);
         told.extend(t);
+    }
+    if reload_at_end {
+        let port = cell.pg().port;
+        let mut cfg2 = cfg.clone();
+        cfg2.gset("ban_time", "61");
+        let ev0 = cell.pg().events().iter().filter(|e| e.1 == "reload.end").count();
+        cell.pg().rewrite_config(&cfg2.to_toml(port));
+        cell.pg().signal(libc::SIGHUP);
+        let deadline = crate::util::now_ns() + 8_000_000_000;
+        while cell.pg().events().iter().filter(|e| e.1 == "reload.end").count() <= ev0 && crate::util::now_ns() < deadline {
+            crate::util::sleep_ms(5);
+        }
+        crate::util::sleep_ms(300);
+        let defaults_after = defaults_told(&addr, "d1")?;
+        rep.count("default_parameters_compared_after_reload", defaults_after.len() as u64);
+        for (k, v0) in &defaults_before {
+            let v1 = defaults_after.get(k).cloned().unwrap_or_default();
+            if *v0 != v1 {
+                rep.violation(
+                    &format!("C12|client_without_own_value_told_another_clients_value|param={}|after=reload", k),
+                    &format!("a client that supplied no {} was told {:?} before any other client had connected and {:?} after other clients had used the pool and the configuration had been reloaded (nothing about this pool changed)", k, v0, v1),
+                    json!({"seed": seed, "before": defaults_before, "after": defaults_after}),
+                );
+            }
+        }
     }
     // mock snapshots per qid
     let mut snaps: HashMap<String, Vec<(String, String)>> = HashMap::new();
